@@ -156,12 +156,13 @@ func genMathextRef(gen *vlib.G) {
 			for _, y := range vals[1:] {
 				for _, z := range vals[1:] {
 					arg := fmt.Sprintf("x=%g y=%g z=%g", x, y, z)
-					s := math.Max(x, math.Max(y, z))
+					s := math.Sqrt(math.Min(y, z) * math.Max(x, math.Max(y, z))) // balances the two ends of t = s u/(1-u)
+					// [0,s] directly and [s,inf) with t = s/w: both end singularities (t^-1/2 at 0 when x = 0,
+					// t^-3/2 at infinity) then sit at 0, where floats are dense
 					integ := func(f func(t float64) float64) float64 {
-						return glAdaptive(func(u float64) float64 {
-							t := s * u / (1 - u)
-							return f(t) * s / ((1 - u) * (1 - u))
-						}, 0, 1, 1e-15, 0, 1)
+						head := glAdaptive(f, 0, s, 1e-15, 0, math.Inf(1))
+						tail := glAdaptive(func(w float64) float64 { return f(s/w) * s / (w * w) }, 0, 1, 1e-15, 0, math.Inf(1))
+						return head + tail
 					}
 					rf := 0.5 * integ(func(t float64) float64 { return 1 / math.Sqrt((t+x)*(t+y)*(t+z)) })
 					rd := 1.5 * integ(func(t float64) float64 { return 1 / (math.Sqrt((t+x)*(t+y)) * math.Pow(t+z, 1.5)) })
